@@ -115,6 +115,23 @@ func c14Cfg(p c14Params) *WorldCfg {
 	sqls := c14Stmts()
 	cfg.Ops = func(w *World) []string {
 		var ops []string
+		if _, own := w.txns[3]; own {
+			// a multi-statement transaction that reads what it has changed itself: rows it deleted are still
+			// in the index (entries go at commit) and still in their slots (delete-marked)
+			n := 0
+			for i := len(w.hist) - 1; i >= 0 && strings.HasPrefix(w.hist[i], "raw:3:"); i-- {
+				n++
+			}
+			if n < 3 {
+				for _, i := range []int{11, 16, 9, 10, 7, 0, 1, 2, 3, 18} {
+					ops = append(ops, fmt.Sprintf("raw:3:%d", i))
+				}
+			}
+			if n > 0 {
+				ops = append(ops, "commit:3", "abort:3")
+			}
+			return ops
+		}
 		_, reader := w.txns[2]
 		if reader {
 			// a statement that is aborted by a lock conflict with the open reader, then the reader ends
@@ -141,6 +158,9 @@ func c14Cfg(p c14Params) *WorldCfg {
 			}
 		}
 		ops = append(ops, "begin:2")
+		if !strings.Contains(strings.Join(w.hist, " "), "begin:3") {
+			ops = append(ops, "begin:3") // once per history
+		}
 		return ops
 	}
 	var before map[int]int
@@ -202,6 +222,30 @@ func c14Cfg(p c14Params) *WorldCfg {
 			w.last += "+pin-count-of-permanently-pinned-page-grew"
 		}
 		return true, nil
+	}
+	var atBegin map[int]int
+	var atBeginVec string
+	cfg.Before = func(w *World, op string) *core.Violation {
+		if op == "begin:3" {
+			atBegin, atBeginVec = pinsByPage(w), pinVector(w)
+		}
+		return nil
+	}
+	cfg.After = func(w *World, op string) *core.Violation {
+		if (op != "commit:3" && op != "abort:3") || atBegin == nil {
+			return nil
+		}
+		var newly []string
+		for pg, n := range pinsByPage(w) {
+			if atBegin[pg] == 0 {
+				newly = append(newly, fmt.Sprintf("page %d: 0 -> %d", pg, n))
+			}
+		}
+		if len(newly) > 0 {
+			sort.Strings(newly)
+			return w.viol("frame-left-pinned/transaction-end/"+strings.SplitN(op, ":", 2)[0], op, fmt.Sprintf("after the transaction ended frames are pinned that were not pinned when it began: %s\n  at begin: %s\n  now     : %s", strings.Join(newly, "; "), atBeginVec, pinVector(w)))
+		}
+		return nil
 	}
 	cfg.KeyExtra = func(w *World) string { return pinVector(w) }
 	return cfg
